@@ -34,6 +34,8 @@ def key_of_text(t):
 
 
 def val_text(v):
+    if v is None:
+        return 'n'                  # an optional regex group that took no part in the match (model: Unmodelled pattern)
     if isinstance(v, bool):
         raise TypeError('bool value')
     if isinstance(v, str):
@@ -51,6 +53,8 @@ def val_text(v):
 
 def val_of_text(t):
     c, r = t[0], t[1:]
+    if c == 'n':
+        return None
     if c == 's':
         return unhs(r)
     if c == 'i':
@@ -78,15 +82,20 @@ def dict_of_text(t):
     return out
 
 
-def canon_entries(t, drop_other=False):
-    """protocol dict text -> {keytext: valtext} (order-insensitive comparison, as Python's dict ==)"""
+def canon_entries(t, drop_other=False, other_values=True):
+    """protocol dict text -> {keytext: valtext} (order-insensitive comparison, as Python's dict ==).
+    other_values=False keeps the derived DE43_* KEYS but not their values: the projection of the properties that speak
+    only of which extra keys may appear (the values are C02's business)."""
     if t == '-':
         return {}
     out = {}
     for e in t.split(';'):
         k, v = e.split('=')
-        if drop_other and k.startswith('O'):
-            continue
+        if k.startswith('O'):
+            if drop_other:
+                continue
+            if not other_values:
+                v = ''
         out[k] = v
     return out
 
@@ -130,7 +139,7 @@ DE43_PATTERNS = [DE43_REGEX, DE43_REGEX, DE43_REGEX,
 DATE_FORMATS = ['%y%m%d', '%y%m%d%H%M%S', '%Y%m%d', '%H%M%S', '%m%d', '%Y%m%d%H%M%S', '%d%m%y']
 
 
-def gen_config(rng, allbits=False):
+def gen_config(rng, allbits=False, modelled_only=False):
     """a caller-supplied configuration: random field types, widths, python types and processors"""
     cfg = {}
     bits = list(range(2, 128)) if allbits else sorted(rng.sample(range(2, 128), rng.randrange(3, 40)))
@@ -164,7 +173,7 @@ def gen_config(rng, allbits=False):
                 icc_done = True
             elif t < 0.42:
                 c['field_processor'] = 'DE43'
-                c['field_processor_config'] = rng.choice(DE43_PATTERNS)
+                c['field_processor_config'] = rng.choice(DE43_PATTERNS[:-1] if modelled_only else DE43_PATTERNS)
             elif t < 0.5:
                 c['field_python_type'] = 'int'
         if 'field_python_type' not in c and rng.random() < 0.3:
